@@ -310,8 +310,11 @@ func genAuthScript(t *rapid.T, w cfggen.World, scope string, session uint32) aut
 	case "odd-start":
 		// any action/type/service/minor combination, carrying a (right) password in data
 		pw := pickPassword(t, w, scope, user, true)
-		s := genStart(t, rapid.SampledFrom(authenActions).Draw(t, "action"), rapid.SampledFrom(authenTypes).Draw(t, "atype"), user, pw)
+		s := genStart(t, rapid.SampledFrom(append([]byte{1, 1}, authenActions...)).Draw(t, "action"), rapid.SampledFrom(authenTypes).Draw(t, "atype"), user, pw)
 		minor := rapid.SampledFrom([]byte{0, 1}).Draw(t, "minor")
+		if rapid.Bool().Draw(t, "no_data") {
+			s.Data = nil // shaped like the START of an ASCII login, whatever its type says
+		}
 		if rapid.Bool().Draw(t, "wrong_version_login") {
 			// a login that is right in everything but the protocol version
 			s.Action = 1
@@ -319,7 +322,13 @@ func genAuthScript(t *rapid.T, w cfggen.World, scope string, session uint32) aut
 			minor = 2 - s.AType // PAP at minor 0, ASCII at minor 1
 		}
 		sc.Pkts = []authPkt{{Kind: "start", Minor: minor, Start: s}}
-		if rapid.Bool().Draw(t, "follow_up") {
+		if rapid.IntRange(0, 3).Draw(t, "follow_up") != 0 {
+			// carry on as a client would if the server prompted: user name (if not given yet), then the right password
+			if user == "" {
+				u2 := pickUser(t, w, scope)
+				pw = pickPassword(t, w, scope, u2, true)
+				sc.Pkts = append(sc.Pkts, cont(u2, 0))
+			}
 			sc.Pkts = append(sc.Pkts, cont(pw, 0))
 		}
 	case "misplaced":
